@@ -358,26 +358,48 @@ impl<'a, R: Resolve, U: Updater> Cloner for Importer<'a, R, U> {
             return Ok(Ref::new(new_ref));
         }
         let obj = self.resolver.get(old)?;
-        let clone = obj.deep_clone(self)?;
 
-        let r = self.updater.create(clone)?;
-        self.map.insert(old.get_inner(), r.get_ref().get_inner());
+        // reserve the new id and memoise it before descending: a reference cycle
+        // through `old` then finds the memo entry instead of recursing without bound
+        let promise = self.updater.promise::<T>();
+        let new = promise.get_inner();
+        self.map.insert(old.get_inner(), new);
 
-        Ok(r.get_ref())
+        match obj.deep_clone(self) {
+            Ok(clone) => {
+                self.updater.fulfill(promise, clone)?;
+                Ok(Ref::new(new))
+            }
+            Err(e) => {
+                // keep the new file writable: the reserved id becomes a null object
+                self.map.remove(&old.get_inner());
+                self.updater.update(new, Primitive::Null)?;
+                Err(e)
+            }
+        }
     }
     fn clone_plainref(&mut self, old: PlainRef) -> Result<PlainRef> {
         if let Some(&new_ref) = self.map.get(&old) {
             return Ok(new_ref);
         }
         let obj = self.resolver.resolve(old)?;
-        let clone = obj.deep_clone(self)?;
 
-        let new = self.updater.create(clone)?
-            .get_ref().get_inner();
-
+        // reserve the new id and memoise it before descending (see clone_ref)
+        let promise = self.updater.promise::<Primitive>();
+        let new = promise.get_inner();
         self.map.insert(old, new);
 
-        Ok(new)
+        match obj.deep_clone(self) {
+            Ok(clone) => {
+                self.updater.fulfill(promise, clone)?;
+                Ok(new)
+            }
+            Err(e) => {
+                self.map.remove(&old);
+                self.updater.update(new, Primitive::Null)?;
+                Err(e)
+            }
+        }
     }
     fn clone_rcref<T: DeepClone + ObjectWrite + DataSize>(&mut self, old: &RcRef<T>) -> Result<RcRef<T>> {
         let old_ref = old.get_ref().get_inner();
